@@ -19,7 +19,7 @@ RULE = ("scenarios as for C02 with an RPC in about half of the passes (start/sto
 
 def dense_rpc(ctx, group_forms):
     rng = ctx.rng
-    for _ in range(ctx.n(40, 1000)):
+    for _ in range(ctx.n(500, 10000)):
         progs = l2.gen_programs(rng, 4)
         n = rng.choice([15, 30])
         script = l2.gen_script(rng, progs, n, shutdown=None, faults=rng.random() < 0.2, rpcs=True, group_forms=group_forms)
